@@ -185,7 +185,7 @@ func costSexp(e costExpr) hx.Sexp {
 
 // nodeSexp builds the model's tree for a definition by running ast.Inspect itself: one model node
 // per callback invocation, children in visiting order.
-func nodeSexp(root ast.Node, coerced map[string]interface{}) hx.Sexp {
+func nodeSexp(root ast.Node, coerced map[string]interface{}, raw *rawReq) hx.Sexp {
 	type frame struct {
 		x      hx.Sexp
 		intro  bool
@@ -204,7 +204,17 @@ func nodeSexp(root ast.Node, coerced map[string]interface{}) hx.Sexp {
 		fr := &frame{intro: parent.intro}
 		switch n := n.(type) {
 		case *ast.Field:
-			fr.x = hx.N("f", costSexp(expectedCost(n, parent.intro, coerced)))
+			ce := expectedCost(n, parent.intro, coerced)
+			fr.x = hx.N("f", costSexp(ce))
+			if ce.Src == "conn" {
+				// the raw spelling: the Lean model coerces variables and arguments itself (raw.go)
+				if parts, ok := connRawParts(n, raw); ok {
+					fr.x = hx.N("f", hx.N("connraw", parts...))
+					rawConnSent++
+				} else {
+					rawConnFallback++
+				}
+			}
 			if n.Name.Name == "__schema" || n.Name.Name == "__type" {
 				fr.intro = true
 			}
@@ -237,25 +247,28 @@ func (d DefaultCost) sexp() hx.Sexp {
 
 // modelRequest renders the `(cost …)` line. coercedFor gives the coerced variables per operation
 // (the model substitutes nothing: arguments are resolved here, per operation).
-func modelRequest(doc *ast.Document, opName string, varsOk bool, max int, dflt DefaultCost, coerced map[string]interface{}) string {
-	pre, post := modelRequestParts(doc, opName, varsOk, dflt, coerced)
+func modelRequest(doc *ast.Document, opName string, varsOk bool, max int, dflt DefaultCost, coerced map[string]interface{}, raw *rawReq) string {
+	pre, post := modelRequestParts(doc, opName, varsOk, dflt, coerced, raw)
 	return pre + strconv.Itoa(max) + post
 }
 
 // modelRequestParts renders everything but the limit: line = pre + <max> + post.
-func modelRequestParts(doc *ast.Document, opName string, varsOk bool, dflt DefaultCost, coerced map[string]interface{}) (pre, post string) {
+// connection fields sent to the model as raw spellings / as the harness's own reading (distribution)
+var rawConnSent, rawConnFallback int
+
+func modelRequestParts(doc *ast.Document, opName string, varsOk bool, dflt DefaultCost, coerced map[string]interface{}, raw *rawReq) (pre, post string) {
 	ops := []hx.Sexp{hx.A("ops")}
 	frags := []hx.Sexp{hx.A("frags")}
 	for _, d := range doc.Definitions {
 		switch d := d.(type) {
 		case *ast.OperationDefinition:
 			if d.Name != nil {
-				ops = append(ops, hx.N("op", hx.A(d.Name.Name), nodeSexp(d, coerced)))
+				ops = append(ops, hx.N("op", hx.A(d.Name.Name), nodeSexp(d, coerced, raw)))
 			} else {
-				ops = append(ops, hx.N("anon", nodeSexp(d, coerced)))
+				ops = append(ops, hx.N("anon", nodeSexp(d, coerced, raw)))
 			}
 		case *ast.FragmentDefinition:
-			frags = append(frags, hx.N("fr", hx.A(d.Name.Name), nodeSexp(d, coerced)))
+			frags = append(frags, hx.N("fr", hx.A(d.Name.Name), nodeSexp(d, coerced, raw)))
 		}
 	}
 	pre = "(cost " + hx.A(opName).String() + " " + hx.B(varsOk).String() + " "
